@@ -251,6 +251,7 @@ def run_census(ctx, rule, root_defs, F, reviews, prop_id, label, only=None, extr
     n_sites = 0
     n_bodies = 0
     used = set()
+    todo = []
     for path in sorted(bodies):
         fn, iid = bodies[path]
         if fn.in_test_file():
@@ -261,30 +262,70 @@ def run_census(ctx, rule, root_defs, F, reviews, prop_id, label, only=None, extr
         rep.analysed(fn)
         for b in [fn] + fn.promoteds():
             for s in sites_of(b):
-                n_sites += 1
-                key = s["key"]
-                full = "%s[%s]" % (key, F.profile) if False else key
-                where = b.loc(s["line"])
-                rv = reviews.get(key)
-                auto = ctx.cache.get("census_auto", {}).get(key)
-                if auto is not None:
-                    rep.ob(rule, key, auto[0], auto[1] if not auto[0] else "", where, how="automatic: " + auto[1])
-                    continue
-                if rv is not None and (prop_id in rv.get("props", [prop_id]) or True):
-                    used.add(key)
-                    g = rv.get("guard")
-                    if g:
-                        ok, why = run_guard(ctx, F, g, b, s)
-                        rep.ob(rule, key, ok, "reviewed argument no longer holds: %s (%s)" % (why, rv["reason"]) if not ok else "", where,
-                               how="reviewed + guard %s: %s" % (g, rv["reason"]))
-                    else:
-                        rep.ob(rule, key, True, "", where, how="reviewed: " + rv["reason"])
-                    continue
-                chain = F.path_to(parent, iid) if iid is not None else []
-                rep.fail(rule, key, "undischarged %s site in a body reachable from %s: %s can panic / is undefined when: %s. Path: %s" % (
-                    s["kind"], label, s.get("callee") or s["detail"], s["cond"], " -> ".join(chain[-6:] + [b.path])), where)
+                todo.append((fn, iid, b, s))
+    # all site keys of the tree (not only the reachable ones): a reviewed entry whose site still exists has not moved
+    all_keys = ctx.cache.get(("census_all_keys", F.profile))
+    if all_keys is None:
+        all_keys = set()
+        for f2 in F.all_bodies(tests=False):
+            for s2 in sites_of(f2):
+                all_keys.add(s2["key"])
+        ctx.cache[("census_all_keys", F.profile)] = all_keys
+    for fn, iid, b, s in todo:
+        n_sites += 1
+        key = s["key"]
+        where = b.loc(s["line"])
+        rv = reviews.get(key)
+        auto = ctx.cache.get("census_auto", {}).get(key)
+        if auto is not None:
+            rep.ob(rule, key, auto[0], auto[1] if not auto[0] else "", where, how="automatic: " + auto[1])
+            continue
+        if rv is not None:
+            used.add(key)
+            g = rv.get("guard")
+            if g:
+                ok, why = run_guard(ctx, F, g, b, s)
+                rep.ob(rule, key, ok, "reviewed argument no longer holds: %s (%s)" % (why, rv["reason"]) if not ok else "", where,
+                       how="reviewed + guard %s: %s" % (g, rv["reason"]))
+            else:
+                rep.ob(rule, key, True, "", where, how="reviewed: " + rv["reason"])
+            continue
+        # a reviewed site that moved (helper extracted / inlined): the argument is carried over only when its guard fact, which is
+        # evaluated on the site itself, holds at the new place, and the old site no longer exists
+        moved = None
+        shp = _shape(key)
+        for k2, rv2 in reviews.items():
+            g2 = rv2.get("guard")
+            if g2 in PORTABLE_GUARDS and _shape(k2) == shp and k2 not in all_keys:
+                ok2, why2 = run_guard(ctx, F, g2, b, s)
+                if ok2:
+                    moved = (k2, rv2, g2)
+                    break
+        if moved is not None:
+            rep.ob(rule, key, True, "", where, how="reviewed argument of %s carried over (the site moved); guard %s re-established here: %s" % (moved[0], moved[2], moved[1]["reason"]))
+            continue
+        chain = F.path_to(parent, iid) if iid is not None else []
+        rep.fail(rule, key, "undischarged %s site in a body reachable from %s: %s can panic / is undefined when: %s. Path: %s" % (
+            s["kind"], label, s.get("callee") or s["detail"], s["cond"], " -> ".join(chain[-6:] + [b.path])), where)
     rep.notes.setdefault("census", {})["%s/%s" % (label, F.profile)] = {"bodies": n_bodies, "sites": n_sites}
     return n_bodies, n_sites
+
+
+def _shape(key):
+    """site key without the function it sits in and without its ordinal: '<kind>::<detail>'"""
+    import re
+    m = re.search(r"::(assert|extern|panic|unsafe)::(.*?)(#\d+)?$", key)
+    return (m.group(1), m.group(2)) if m else (None, key)
+
+
+# guards that derive everything they claim from the site they are evaluated on (or from the callers of the function it sits
+# in): the reviewed argument they back is independent of which function the site lives in
+PORTABLE_GUARDS = {
+    "operator-table-total", "writeval-never-errs", "push-rhs-arms", "to-digit-radix-const", "radix-range-checked",
+    "resize-after-try-reserve", "reserve-diff-nonneg", "array-after-coerce", "compare-same-kind", "take-first-len-1",
+    "listbuilder-nonempty", "offset-from-guarded", "compute-value-no-dot", "as-text-ascii", "parameter-seps-capacity",
+    "inc-null-replaced", "capitalized-callback-infallible",
+}
 
 
 # ------------------------------------------------------------------------------------------
